@@ -21,6 +21,7 @@ func init() {
 			c08R3(c, "C08.R3")
 			c08R4(c, "C08.R4")
 			ruleIOErrorDiscipline(c, "C08.R5")
+			ruleTestedErrorsPropagate(c, "C08.R8", []string{rootPkg, freelistPath}, 60, nil) // a failing step must surface as an error: no tested error in the library leads to a success return
 			c03R1(c, "C08.R6") // "later transactions — including the next writer — proceed without blocking": the writer lock is released on every exit
 			ruleFreeSetEntry(c, "C08.R7") // "read transactions that were open during the failure keep their snapshot"
 		},
